@@ -196,6 +196,22 @@ def falsified(text, flags, rec=None):
         for line in rec["result"].split("\n"):
             if line.startswith("__dom_") and ":-" in line and "not __dom_" in line.split(":-", 1)[1]:
                 keys.add("Hyp_dom_positive")
+    # D33 (instance dependent): the result applies arithmetic to a non-integer where the source did not
+    if rec is not None and rec.get("result_undefined") and "math" in on:
+        keys.add("Hyp_integers_only")
+    # D32: recursion through an aggregate: the head predicate occurs inside a body aggregate of its own rule
+    if "math" in on:
+        for stm in rules:
+            if stm.ast_type != ASTType.Rule:
+                continue
+            hp = set(astspec.pos_head(stm))
+            inside = set()
+            for n in walk(stm):
+                if n.ast_type == ASTType.BodyAggregate:
+                    for _, sy in astspec.sym_atoms(n):
+                        inside.update(astspec.sigs(sy))
+            if hp & inside:
+                keys.add("Hyp_no_rec_through_agg")
     # D19 (evaluated operationally): ngo's own normal form (all traits off) of a safe program is rejected by clingo
     if rec is not None and rec.get("status") == "broken-result":
         try:
